@@ -67,6 +67,11 @@ type opDesc struct {
 	Len    uint64      `json:"len,omitempty"`   // read: bytes read from offset 0
 	Token  string      `json:"token,omitempty"` // ok wrongkey other expired
 	Mode   string      `json:"mode,omitempty"`  // expire: height (mine up to the proof height) | renew
+	// read / write / verify abandoned by the renter: the stream is closed after half of the
+	// request header (req-half), after the header of a write (req), after k bytes of the sector
+	// data of a write (data:64, data:half, data:tail = all but 64 bytes), or -- the host has the
+	// whole request -- when the first byte of the answer arrives (read/verify: req, write: data-all)
+	Cut string `json:"cut,omitempty"`
 }
 
 func (o opDesc) String() string {
@@ -86,9 +91,15 @@ func (o opDesc) String() string {
 		}
 		return fmt.Sprintf("%s(%s)", o.Kind, strings.Join(es, ","))
 	case "read":
+		if o.Cut != "" {
+			return fmt.Sprintf("read(a%d,s%d,len=%d,%s,cut=%s)", o.A, o.Sector, o.Len, o.Token, o.Cut)
+		}
 		return fmt.Sprintf("read(a%d,s%d,len=%d,%s)", o.A, o.Sector, o.Len, o.Token)
 	case "expire":
 		return fmt.Sprintf("expire(c%d,%s)", o.C, o.Mode)
+	}
+	if o.Cut != "" {
+		return fmt.Sprintf("%s(a%d,s%d,%s,cut=%s)", o.Kind, o.A, o.Sector, o.Token, o.Cut)
 	}
 	return fmt.Sprintf("%s(a%d,s%d,%s)", o.Kind, o.A, o.Sector, o.Token)
 }
@@ -784,6 +795,54 @@ func (sc *scen) exec(o opDesc) (coqOp string, ok bool, errStr string, payload []
 		cost := sc.cost(o)
 		root := sc.roots[o.Sector]
 		var err error
+		if o.Cut != "" {
+			// the renter abandons the RPC: send a prefix of what a complete RPC sends, wait,
+			// close the stream
+			var msg bytes.Buffer
+			data := sc.data[o.Sector]
+			switch o.Kind {
+			case "read":
+				coqOp = fmt.Sprintf("ReadSec %d %s %d %s", o.A, tterm, o.Sector, z(cost))
+				proto4.WriteRequest(&msg, proto4.RPCReadSectorID, &proto4.RPCReadSectorRequest{Prices: h.prices, Token: tok, Root: root, Offset: 0, Length: o.Len})
+			case "write":
+				coqOp = fmt.Sprintf("WriteSec %d %s %d %s", o.A, tterm, o.Sector, z(cost))
+				proto4.WriteRequest(&msg, proto4.RPCWriteSectorID, &proto4.RPCWriteSectorRequest{Prices: h.prices, Token: tok, DataLength: uint64(len(data))})
+			default:
+				coqOp = fmt.Sprintf("VerifySec %d %s %d %s", o.A, tterm, o.Sector, z(cost))
+				proto4.WriteRequest(&msg, proto4.RPCVerifySectorID, &proto4.RPCVerifySectorRequest{Prices: h.prices, Token: tok, Root: root, LeafIndex: 5})
+			}
+			send := msg.Bytes()
+			switch o.Cut {
+			case "req-half":
+				send = send[:len(send)/2]
+			case "data:64":
+				send = append(send, data[:64]...)
+			case "data:half":
+				send = append(send, data[:len(data)/2]...)
+			case "data:tail":
+				send = append(send, data[:len(data)-64]...)
+			case "data-all":
+				send = append(send, data...)
+			}
+			err = fmt.Errorf("abandoned (%s)", o.Cut)
+			if st, derr := h.transport.DialStream(ctx); derr != nil {
+				err = derr
+			} else {
+				st.SetDeadline(time.Now().Add(10 * time.Second))
+				st.Write(send)
+				if o.Kind != "write" && o.Cut == "req" || o.Cut == "data-all" {
+					// the host has all it needs: the renter disappears once the answer
+					// starts to arrive, without consuming it
+					st.Read(make([]byte, 1))
+				} else {
+					time.Sleep(15 * time.Millisecond) // whatever the host does with this much, it has done by now
+				}
+				st.Close()
+			}
+			h.rec.settle()
+			fin(err)
+			return
+		}
 		switch o.Kind {
 		case "read":
 			coqOp = fmt.Sprintf("ReadSec %d %s %d %s", o.A, tterm, o.Sector, z(cost))
@@ -1130,6 +1189,40 @@ func (sc *scen) step(o opDesc) (*failure, error) {
 	if err := sc.observe(&ob); err != nil {
 		return nil, err
 	}
+	if o.Cut != "" {
+		// An abandoned RPC. Unless the host had everything it needs to complete the RPC on its
+		// own (the whole request of a read / verify, the whole data of a write), nothing may
+		// have been debited, read or stored. If it had, it may have completed the RPC (then
+		// the step is judged as that complete RPC) or not have started it.
+		complete := o.Kind != "write" && o.Cut == "req" || o.Kind == "write" && o.Cut == "data-all"
+		changed := len(ob.events) > 0
+		for _, k := range allKeys {
+			if get(ob.acct, k).Cmp(get(before.acct, k)) != 0 || get(ob.pool, k).Cmp(get(before.pool, k)) != 0 {
+				changed = true
+			}
+		}
+		sc.counts["cut:"+o.Kind+":"+o.Cut]++
+		switch {
+		case changed && !complete:
+			sc.trace = append(sc.trace, stepRec{op: o, coqOp: "Cut (" + coqOp + ")", obs: ob})
+			kind := "abandoned-rpc-served"
+			for _, c := range ob.calls {
+				if c.Kind == "debit" && c.Err == nil {
+					kind = "abandoned-rpc-debited"
+				}
+			}
+			if kind == "abandoned-rpc-served" && len(ob.events) == 0 {
+				kind = "abandoned-rpc-debited"
+			}
+			return &failure{kind, fmt.Sprintf("%s: the stream was closed before the host had the whole request (cut %s), yet the host recorded %s and the balances %s", o, o.Cut, eventsString(ob.events), map[bool]string{true: "changed", false: "did not change"}[sumBal(ob.acct, ob.pool).Cmp(sumBal(before.acct, before.pool)) != 0]), len(sc.trace) - 1}, nil
+		case changed:
+			ob.ok = true // the host carried the RPC out
+			sc.counts["cut-completed-by-host"]++
+		default:
+			coqOp = "Cut (" + coqOp + ")"
+			ex = expect{after: sc.ref.clone(), boundary: 99, cost: ex.cost}
+		}
+	}
 	sc.trace = append(sc.trace, stepRec{op: o, coqOp: coqOp, obs: ob})
 	sc.counts["op:"+o.Kind]++
 	if ob.ok {
@@ -1447,6 +1540,12 @@ func (g *gen) service(sc *scen) []opDesc {
 			o.Sector = pick(r, stored)
 		}
 	}
+	if o.Token == "ok" && r.Chance(1, 8) {
+		o.Cut = pick(r, cutsFor(o.Kind))
+		if o.Kind == "write" && o.Sector == 0 {
+			o.Sector = 1 + r.Intn(3) // data cuts need more than 64 bytes of data
+		}
+	}
 	if !r.Chance(3, 4) {
 		return []opDesc{o}
 	}
@@ -1479,6 +1578,13 @@ func (g *gen) service(sc *scen) []opDesc {
 		return []opDesc{{Kind: "replA", C: 0, Keys: []int{o.A, o.A}, Target: target.String(), Signer: "ok"}, o}
 	}
 	return []opDesc{{Kind: "fund", C: 0, Deps: []depDesc{{K: o.A, Amt: need.String()}}, Signer: "ok"}, o}
+}
+
+func cutsFor(kind string) []string {
+	if kind == "write" {
+		return []string{"req-half", "req", "data:64", "data:half", "data:tail", "data-all"}
+	}
+	return []string{"req-half", "req"}
 }
 
 func storedIdx(l *ledger) []int {
@@ -1711,6 +1817,106 @@ func (d deadSpec) plan() []opDesc {
 		opDesc{Kind: "replP", C: 1 - d.C, Keys: []int{4, 5}, Target: "600", Signer: ok})
 }
 
+// A forgeSpec sends an attach or detach batch of two entries, one properly signed and one
+// forged in a given way, in either order: the batch must be refused as a whole.
+type forgeSpec struct {
+	Attach   bool
+	Variant  string // signer variant of the forged entry, or "expired" / "self"
+	BadFirst bool
+}
+
+func forgeSpecs() []forgeSpec {
+	var specs []forgeSpec
+	for _, attach := range []bool{true, false} {
+		for _, v := range []string{"stranger", "replay-kind", "replay-acct", "replay-vu", "zero", "same-as-first", "acct", "expired", "self"} {
+			if v == "acct" && !attach {
+				continue // the account may detach itself
+			}
+			specs = append(specs, forgeSpec{attach, v, false})
+			if v != "same-as-first" {
+				specs = append(specs, forgeSpec{attach, v, true})
+			}
+		}
+	}
+	return specs
+}
+
+func (d forgeSpec) plan() []opDesc {
+	ops := []opDesc{{Kind: "replP", C: 0, Keys: []int{4, 5}, Target: "1000", Signer: "ok"}}
+	good := entryDesc{A: 1, P: 4, VU: 1, Signer: "pool"}
+	bad := entryDesc{A: 2, P: 5, VU: 1, Signer: d.Variant}
+	switch d.Variant {
+	case "expired":
+		bad.Signer, bad.VU = "pool", 0
+	case "self":
+		bad.Signer, bad.P = "pool", bad.A
+	}
+	kind := "detach"
+	if d.Attach {
+		kind = "attach"
+	} else {
+		ops = append(ops, opDesc{Kind: "attach", Es: []entryDesc{good, {A: 2, P: 5, VU: 1, Signer: "pool"}}})
+	}
+	batch := opDesc{Kind: kind, Es: []entryDesc{good, bad}}
+	if d.BadFirst {
+		batch.Es = []entryDesc{bad, good}
+	}
+	// afterwards the honest batch goes through
+	return append(ops, batch, opDesc{Kind: kind, Es: []entryDesc{good, {A: 2, P: 5, VU: 1, Signer: "pool"}}})
+}
+
+// A cutSpec funds an account (own balance, or a pool attached to it) with exactly the price
+// of one RPC, abandons that RPC at the given point, then runs it to completion (it must be
+// served and charged once unless the host had already completed the abandoned one), and
+// abandons it once more.
+type cutSpec struct {
+	A      int
+	Kind   string
+	Cut    string
+	ByPool bool
+}
+
+func cutSpecs() []cutSpec {
+	var specs []cutSpec
+	for _, kind := range []string{"write", "read", "verify"} {
+		for _, cut := range cutsFor(kind) {
+			for _, byPool := range []bool{false, true} {
+				specs = append(specs, cutSpec{A: 1 + len(specs)%3, Kind: kind, Cut: cut, ByPool: byPool})
+			}
+		}
+	}
+	return specs
+}
+
+func (d cutSpec) plan(sc *scen) []opDesc {
+	svc := opDesc{Kind: d.Kind, A: d.A, Sector: 3, Token: "ok", Len: 8192}
+	var ops []opDesc
+	need := new(big.Int)
+	var pre *opDesc
+	if d.Kind != "write" {
+		if stored := storedIdx(sc.ref); len(stored) > 0 {
+			svc.Sector = stored[0]
+		} else {
+			pre = &opDesc{Kind: "write", A: d.A, Sector: 1, Token: "ok"}
+			svc.Sector = 1
+			need.Add(need, sc.cost(*pre))
+		}
+	}
+	need.Add(need, sc.cost(svc))
+	if d.ByPool {
+		ops = append(ops, opDesc{Kind: "replP", C: 0, Keys: []int{5}, Target: need.String(), Signer: "ok"},
+			opDesc{Kind: "attach", Es: []entryDesc{{A: d.A, P: 5, VU: 1, Signer: "pool"}}})
+	} else {
+		ops = append(ops, opDesc{Kind: "fund", C: 0, Deps: []depDesc{{K: d.A, Amt: need.String()}}, Signer: "ok"})
+	}
+	if pre != nil {
+		ops = append(ops, *pre)
+	}
+	cut := svc
+	cut.Cut = d.Cut
+	return append(ops, cut, svc, cut, svc)
+}
+
 func runPlanned(h *hostEnv, r *rng.R, plan func(*scen) []opDesc) (*scen, []opDesc, *failure, error) {
 	sc, err := newScen(h, r)
 	if err != nil {
@@ -1886,17 +2092,49 @@ func nontrivial(counts map[string]int) bool {
 
 func runC15(c *hx.Ctx) {
 	res := c.Res
-	res.Rule = "sequences of fund / replenish accounts / replenish pools (duplicates, targets below, at and above the balance) / attach / detach (valid, wrong key, replayed, expired) / read / write / verify RPCs against a real rhp4 host over siamux, 3 accounts x 4 pools x 2 contracts (one nearly exhausted); directed scenarios attach 3 or 4 pools in every order, detach the first / a middle / the last link (or two in one batch), and then drain the pools partly so that the individual pool balances show the drain order; further directed scenarios let a contract reach its proof height or be renewed and then try every crediting RPC against it, drawable funds steered to cost-1, cost, cost+1; non-trivial := at least one credit succeeded, one sector RPC was served and one was refused for insufficient funds; distinct by the operation sequence"
+	res.Rule = "sequences of fund / replenish accounts / replenish pools (duplicates, targets below, at and above the balance) / attach / detach (valid, wrong key, replayed, expired) / read / write / verify RPCs against a real rhp4 host over siamux, 3 accounts x 4 pools x 2 contracts (one nearly exhausted); directed scenarios attach 3 or 4 pools in every order, detach the first / a middle / the last link (or two in one batch), and then drain the pools partly so that the individual pool balances show the drain order; further directed scenarios let a contract reach its proof height or be renewed and then try every crediting RPC against it, abandon every account-paid RPC at every point of its request (header, sector data, before the answer is consumed), and send attach / detach batches with one forged entry of every kind in either position; a concurrent section races 8 debits on funds for 1..3 of them (one account; two accounts sharing a pool; on the Contractor and through parallel RPC streams), drawable funds steered to cost-1, cost, cost+1; non-trivial := at least one credit succeeded, one sector RPC was served and one was refused for insufficient funds; distinct by the operation sequence"
 
+	// the concurrent section runs first, while all cores are free
+	runConcurrent := func(seed *rng.R) bool {
+		h, err := setupHost(seed, pricesFor(seed))
+		if err != nil {
+			res.Fail("harness-setup", err.Error(), nil)
+			return false
+		}
+		defer h.close()
+		fails, counts, err := concurrentSection(h, seed, c.Scale(24000, 100000), c.Scale(3000, 12000), c.Scale(18, 150))
+		if err != nil {
+			res.Fail("harness-error", err.Error(), nil)
+			return false
+		}
+		keys := make([]string, 0, len(counts))
+		for k := range counts {
+			keys = append(keys, k)
+		}
+		sort.Strings(keys)
+		for _, k := range keys {
+			res.CountN(k, counts[k])
+		}
+		for _, f := range fails {
+			res.Fail(f.kind, f.detail, f.replay)
+		}
+		return true
+	}
 	if c.Replay != "" {
 		var rp struct {
 			Replay struct {
-				Ops    []opDesc  `json:"ops"`
-				Prices priceSpec `json:"prices"`
+				Ops     []opDesc  `json:"ops"`
+				Prices  priceSpec `json:"prices"`
+				Section string    `json:"section"`
 			} `json:"replay"`
 		}
 		b, _ := os.ReadFile(c.Replay)
 		json.Unmarshal(b, &rp)
+		if rp.Replay.Section == "concurrent" {
+			runConcurrent(c.R.Fork())
+			res.Eval("concurrent", true)
+			return
+		}
 		if rp.Replay.Prices.Egress == 0 {
 			rp.Replay.Prices = priceSpec{1, 1, 1}
 		}
@@ -1919,9 +2157,13 @@ func runC15(c *hx.Ctx) {
 		return
 	}
 
+	if !runConcurrent(c.R.Fork()) {
+		return
+	}
+
 	const workers = 8
-	specs, dead := directedSpecs(), deadSpecs()
-	nScen := len(corpus()) + len(specs) + len(dead) + c.Scale(170, 4000)
+	specs, dead, cuts, forged := directedSpecs(), deadSpecs(), cutSpecs(), forgeSpecs()
+	nScen := len(corpus()) + len(specs) + len(dead) + len(cuts) + len(forged) + c.Scale(130, 4000)
 	opsPer := c.Scale(22, 30)
 	seeds := make([]*rng.R, nScen)
 	hostSeeds := make([]*rng.R, workers)
@@ -1967,6 +2209,10 @@ func runC15(c *hx.Ctx) {
 					sc, ops, f, err = runPlanned(h, r.Fork(), specs[j].plan)
 				} else if j -= len(specs); j < len(dead) {
 					sc, ops, f, err = runPlanned(h, r.Fork(), func(*scen) []opDesc { return dead[j].plan() })
+				} else if j -= len(dead); j < len(cuts) {
+					sc, ops, f, err = runPlanned(h, r.Fork(), cuts[j].plan)
+				} else if j -= len(cuts); j < len(forged) {
+					sc, ops, f, err = runPlanned(h, r.Fork(), func(*scen) []opDesc { return forged[j].plan() })
 				} else {
 					sc, ops, f, err = runGenerated(h, r.Fork(), opsPer)
 				}
